@@ -12,6 +12,15 @@ AREAS = {
     "counters": "src/counters.rs and the legend / header / counters printing (src/decoder/plane/header.rs, legend, the DF counters line) - everything that is printed around the table",
     "cprstate": "the CPR pairing state on Plane: how even/odd halves and their timestamps are kept, the 10 s pairing window, surface vs airborne handling, distance to the observer (src/decoder/plane/update_position.rs, from_ext paths, position.rs helpers other than cpr_location's core arithmetic)",
     "dfstruct": "the DF / Downlink structures and DF::from_message dispatch (src/decoder/downlink*, df.rs, Srt/Ext/Mds or however they are named) - constructors, field extraction, the trait UpdateFromDownlink dispatch",
+    # round 3: cross-cutting themes rather than areas
+    "casts": "every `as` cast and every magic number in src/decoder/utils/ and src/decoder/adsb/ (bit-field extraction, CRC, altitude, squawk, velocity, position): replace casts by From/TryFrom/checked conversions where provably identical, name the constants, and rewrite the index arithmetic of the bit-field helpers (range_value / flag_and_range_value / bit_location or however they are called) in a clearer but equivalent way",
+    "crcloops": "the CRC / parity code (src/decoder/utils/crc.rs and its callers in the frame gate and in the address recovery): turn the hand-written shift/xor loops into iterator form (fold / chunks / zip ...) or into a differently organised loop (bytewise with an on-the-fly computed table entry, word-wise, ...) that computes exactly the same 24-bit remainder for every input",
+    "modules": "the module layout of src/decoder/plane/ and src/decoder/: move private helper functions to where they are used, rename private functions and locals to clearer names, merge or split small modules (from_squitter/from_downlink/from_ext/from_bcast ...), turn free functions into methods or vice versa - WITHOUT changing any public path or signature re-exported from src/lib.rs and without changing behaviour",
+    "tablemap": "the aircraft table in src/decoder/planes.rs: how rows are looked up, inserted, updated, swept and collected for printing - e.g. use the entry API, get_or_insert-style helpers, `retain` vs collect-and-remove, iterator adaptors for the printed list, a small private struct for the sort keys - keeping exactly the same rows, the same order of printed lines for every -o string (including ties), the same sweep cadence and the same log records",
+    "rowcells": "the row renderer src/decoder/plane/simple_display.rs: restructure how a table line is produced (per-column helper functions or closures, a small macro, match instead of if-let chains, a shared helper for 'value or blanks of width N', one write! per column group) so that every line is byte-for-byte the same as before for every aircraft state and every -i flag set",
+    "readloop": "src/reader.rs per-line loop: restructure it (e.g. a `fn handle_line(&str, &Args, &mut Planes, ..)` called from the loop, a read_until/BufRead::read_line based loop with a reused buffer instead of split(), early returns instead of let-else-continue, a small struct holding the per-run state such as counters and log file) with exactly the same accepted/rejected lines, the same order of side effects (logging, counting, table update, sweep, refresh) and the same end-of-input / I/O-error behaviour",
+    "gillham": "the Gillham / Gray-code altitude path and the squawk (identity code) decoding: src/decoder/adsb/altitude/graytobin.rs, altitude.rs, squawk.rs, ma_code.rs - rewrite the bit shuffling with tables, loops or helper closures (a different but equivalent formulation), keeping every decoded value identical for all 2^13 / 2^12 field values, INCLUDING any value that looks wrong to you (do not fix anything)",
+    "ehsvalid": "the plausibility rules of the Comm-B registers BDS 4,0 / 5,0 / 6,0 (src/decoder/bds/*.rs, src/decoder/ehs/*.rs): restructure the validity checks and field decoders (status-bit handling, sign handling, scaling) with helper functions, early returns, tables of (status bit, first bit, last bit, scale) - every register must be recognised / rejected for exactly the same frames and every decoded value must be identical",
 }
 
 aid, wt = sys.argv[1], sys.argv[2]
